@@ -44,7 +44,19 @@ class ConsumerCluster(Cluster):
     cut_i = 0
     one_shot = None
 
+    fetch_count = 0
+    fetch_cap = 400
+    storm = False
+
     def _fetch_body(self, conn, req, forced):
+        self.fetch_count += 1
+        if self.fetch_count > self.fetch_cap and not self.storm:
+            # far more Fetch requests than any correct run of these scenarios needs (typically the same request in a
+            # tight loop without virtual time advancing): end the run, the scenario reports it
+            self.storm = True
+            mt = self.world.main_task
+            if mt is not None and not mt.done():
+                self.world.loop.call_soon(mt.cancel)
         saved = self.fetch_batch_limit
         plan = self.cut_plan
         if self.one_shot is not None:
@@ -163,6 +175,7 @@ class ConsumerScenario:
             cl.fetch_batch_limit = cuts
         elif cuts:
             cl.cut_plan = list(cuts)
+        cl.fetch_cap = p.get("fetch_cap", 400)
         cl.fault_kinds = tuple(p.get("faults", ()))
         cl.fault_apis = set(p.get("fault_apis", ("Fetch",)))
         cl.err_codes = {k: list(v) for k, v in p.get("errs", {}).items()}
@@ -406,6 +419,13 @@ class ConsumerScenario:
         if world.capped:
             return
         mt = world.main_task
+        if self.cluster.storm:
+            offs = [tuple(pd["fetch_offset"] for td in e["body"]["topics"] for pd in td["partitions"])
+                    for e in self.cluster.arrivals if e["api"] == "Fetch"][-6:]
+            same = len(set(offs)) <= 2
+            self.fail("stall", {"what": "fetch-storm", "same_request_repeated": same},
+                      f"{self.cluster.fetch_count} Fetch requests in one run (cap {self.cluster.fetch_cap}); last fetch offsets {offs}")
+            return
         if mt.done() and not mt.cancelled() and mt.exception() is not None:
             exc = mt.exception()
             self.fail("harness-main", {"what": "main-exception", "type": type(exc).__name__}, f"scenario main failed: {exc!r}")
